@@ -1892,6 +1892,10 @@ def M_iter_skip_take(kind):
     return f
 
 
+def M_iter_once(it, ctx, args, st):
+    yield st, It('list', (args[0],))
+
+
 def M_iter_chain(it, ctx, args, st):
     yield st, It('chain', (as_iter(it, st, args[0]), as_iter(it, st, args[1])))
 
@@ -2452,6 +2456,7 @@ MODELS = [
     (r'<' + P + r'iter::Peekable<.*> as ' + P + r'iter::Iterator>::next', M_peekable_next, is_peekable),
     (ITER + r'skip', M_iter_skip_take('skip')), (ITER + r'take', M_iter_skip_take('take')), (ITER + r'chain::<.*>', M_iter_chain),
     (ITER + r'last', M_iter_last), (ITER + r'nth', M_iter_nth),
+    (P + r'iter::once::<.*>', M_iter_once),
     (ITER + r'partition::<.*>', M_partition),
     (ITER + r'for_each::<.*>', M_for_each), (ITER + r'rposition::<.*>', M_rposition),
     (r'<' + P + r'cmp::Ordering as ' + P + r'cmp::PartialEq>::(eq|ne)', M_ordering_eq),
